@@ -320,7 +320,7 @@ def _ars_strategy():
         st.none(), st.just(""), st.text(max_size=12), st.text(st.characters(min_codepoint=0x30, max_codepoint=0x39), min_size=1, max_size=10),
         st.sampled_from([1, 127, 128, 254, 255]).flatmap(lambda n: st.text(st.characters(min_codepoint=0x20, max_codepoint=0x7E), min_size=n, max_size=n)),
         st.text(max_size=255).map(_fit255),
-        st.lists(st.one_of(st.sampled_from(CODEC_SPECIALS), st.sampled_from(CODEC_SPECIALS), st.characters(min_codepoint=0x20, max_codepoint=0x7E), st.characters()), min_size=1, max_size=10).map("".join),
+        st.lists(st.one_of(st.sampled_from(CODEC_SPECIALS), st.sampled_from(CODEC_SPECIALS), st.characters(min_codepoint=0x20, max_codepoint=0x7E), st.characters(codec="utf-8")), min_size=1, max_size=10).map("".join),
         st.lists(st.one_of(st.sampled_from(CODEC_SPECIALS), st.characters(min_codepoint=0x20, max_codepoint=0x7E)), min_size=1, max_size=120).map("".join).map(_fit255),
     )
     flags = st.tuples(st.booleans(), st.booleans(), st.booleans(), st.booleans())
